@@ -14,6 +14,11 @@ variable {K : Type} [Add K] [Mul K] [Neg K] [Sub K]
     v = V2 − V1 and the current into its + terminal is I2 = −I1. -/
 def SeriesElem (R : K → K → Prop) (p : Port K) : Prop := p.I2 = -p.I1 ∧ R (p.V2 - p.V1) (-p.I1)
 
+/-- `SeriesAlt`: the one-port sits in the BOTTOM rail (`OP._net_make(netlist, n2, n4)`: + node at the − terminal of
+    port 1, − node at the − terminal of port 2), the + terminals are joined.  Then V2 − V1 = V(n2) − V(n4) is the
+    voltage across the one-port and the current into its + node is the return current −I1. -/
+def SeriesAltElem (R : K → K → Prop) (p : Port K) : Prop := p.I2 = -p.I1 ∧ R (p.V2 - p.V1) (-p.I1)
+
 /-- a one-port connected across both ports (+ terminals joined, − terminals joined) -/
 def ShuntElem (R : K → K → Prop) (p : Port K) : Prop := p.V2 = p.V1 ∧ R p.V1 (p.I1 + p.I2)
 
